@@ -246,7 +246,7 @@ def run_paxos(chk, jobs, tier, rng, parallel):
     def add(rec, info, mode="safety", pval=0):
         T.add(lambda tid: rec.trace(tid, [], mode=mode, pval=pval), info, rec.error)
 
-    n_direct, n_sim, n_prog = (150, 20, 12) if tier == "quick" else (900, 120, 60)
+    n_direct, n_sim, n_prog = (120, 16, 10) if tier == "quick" else (900, 120, 60)
     for k in range(n_direct):
         c, info = P.random_direct(rng, strat=P.STRATS[k % len(P.STRATS)])
         info["origin"] = "random direct drive"
@@ -287,7 +287,7 @@ def run_paxos(chk, jobs, tier, rng, parallel):
     dot = tlc.WORK / "C12_paxos_live_ascode" / "graph.dot"
     g = tlc.parse_dot(dot)
     n_paths = 0
-    for root, path in tlc.edge_tour(g, max_paths=150 if tier == "quick" else None, rng=rng):
+    for root, path in tlc.edge_tour(g, max_paths=100 if tier == "quick" else None, rng=rng):
         states = [g.nodes[root]] + [g.nodes[d] for _, d in path]
         c, skipped = P.replay_choices(3, P.choices_from_states(states))
         chk.replays += 1
@@ -367,8 +367,9 @@ def multi_jobs(jobs, tier):
     jobs.submit("multi_live_dev", lambda: mc(M, "multi_live_dev", multi_consts(dev=["self_heartbeat_demotes_leader"],
                                                                                **MULTI_LIVE), [], ["Progress"],
                                              spec="FairSpec", workers=small))
-    jobs.submit("flex_live_clean", lambda: mc(M, "flex_live_clean", multi_consts(**dict(MULTI_LIVE, flex=True, cmds=2)),
-                                              [], ["Progress"], spec="FairSpec", workers=small))
+    if tier != "quick":
+        jobs.submit("flex_live_clean", lambda: mc(M, "flex_live_clean", multi_consts(**dict(MULTI_LIVE, flex=True, cmds=2)),
+                                                  [], ["Progress"], spec="FairSpec", workers=small))
     # small as-code graph for the edge tour (Multi-Paxos as coded, one leader, one command, one tick)
     jobs.submit("multi_tour", lambda: mc(M, "multi_tour", multi_consts(cands="{}", subs="{1}", starts=1, cmds=1, maxb=1,
                                                                        hb=True, ticks=1, prefix="PrefixLeader1",
@@ -385,7 +386,7 @@ def run_multi(chk, jobs, tier, rng, parallel):
     def add(rec, info, mode="safety", pcmds=()):
         T.add(lambda tid: rec.trace(tid, info["cfg"], mode=mode, pcmds=pcmds), info, rec.error)
 
-    n_direct, n_sim, n_prog = (120, 12, 16) if tier == "quick" else (720, 72, 96)
+    n_direct, n_sim, n_prog = (100, 10, 12) if tier == "quick" else (720, 72, 96)
     for k in range(n_direct):
         cfg = M.random_cfg(rng, flex=bool(k % 2))
         c, info = M.random_direct(rng, cfg=cfg, strat=M.STRATS[k % len(M.STRATS)])
@@ -415,7 +416,7 @@ def run_multi(chk, jobs, tier, rng, parallel):
         res = jobs.result(name)
         chk.add_tlc(f"Multi/Flexible Paxos Dev={{}} {name[12:]}", res)
         chk.require(res.ok, f"Multi.tla with Dev={{}} violates {res.violated} in {name}: the corrected design is wrong")
-    for name in ("multi_live_clean", "flex_live_clean"):
+    for name in ("multi_live_clean", "flex_live_clean")[:1 if tier == "quick" else 2]:
         res = jobs.result(name)
         chk.add_tlc(f"{name}: FairSpec, established leader, Progress", res)
         chk.require(res.ok, f"Multi.tla Dev={{}} {name} violates {res.violated}")
@@ -444,7 +445,7 @@ def run_multi(chk, jobs, tier, rng, parallel):
     dot = tlc.WORK / "C12_multi_tour" / "graph.dot"
     g = tlc.parse_dot(dot)
     n_paths = 0
-    for root, path in tlc.edge_tour(g, max_paths=150 if tier == "quick" else 1500, rng=rng):
+    for root, path in tlc.edge_tour(g, max_paths=100 if tier == "quick" else 1500, rng=rng):
         states = [g.nodes[root]] + [g.nodes[d] for _, d in path]
         c, skipped = M.replay_choices(base, M.choices_from_states(states), M.PREFIXES["PrefixLeader1"])
         chk.replays += 1
@@ -482,7 +483,7 @@ def misc_jobs(jobs, tier):
 def run_misc(chk, jobs, tier, rng, parallel):
     from . import c12_misc as X
     E, L = Traces(chk, "elect"), Traces(chk, "lock")
-    n_e, n_es, n_l, n_ls = (45, 9, 60, 12) if tier == "quick" else (270, 54, 360, 72)
+    n_e, n_es, n_l, n_ls = (30, 6, 40, 8) if tier == "quick" else (270, 54, 360, 72)
     for k in range(n_e):
         rec, info = X.election_direct(rng, strategy=("bully", "ring", "random")[k % 3])
         info["origin"] = "random direct drive"
